@@ -3,6 +3,7 @@ from __future__ import annotations
 
 import ast
 
+from ..amatch import AM
 from ..report import AnalysisError
 from ..srcmodel import norm
 from ..state import StateAnalysis, self_attr
@@ -104,15 +105,19 @@ def rule_c(ctx):
     rets = [norm(r.value) for r in ast.walk(f.node) if isinstance(r, ast.Return) and r.value is not None]
     ctx.ob(R, f.qname, "the reduced weighted product is returned", rets == list(tgt), str(rets), f.node)
     # scaling: ratio of voxel counts, geometry over data
-    sc = [norm(n.value) for n in ast.walk(f.node) if isinstance(n, ast.Assign) and norm(n.targets[0]) == "scaling"]
-    ctx.ob(R, f.qname, "scaling is prod(num_voxels / data shape)", sc == ["np.prod(np.divide(self.num_voxels, fetched_shape))"] or sc == ["np.prod(np.array(self.num_voxels) / np.array(fetched_shape))"], str(sc), f.node)
+    am = AM(f)
+    ok = am.has(f.node, "fetched_shape = list(fetched_data.shape[:self.space_dim])") is not None and (
+        am.has(f.node, "scaling = np.prod(np.divide(self.num_voxels, fetched_shape))") is not None
+        or am.has(f.node, "scaling = np.prod(np.array(self.num_voxels) / np.array(fetched_shape))") is not None)
+    ctx.ob(R, f.qname, "scaling is prod(num_voxels / spatial data shape)", ok, str(am.show()), f.node)
     ctx.floor(R, 1)
     nm = m.func(MOD, "Geometry.normalize")
-    calls = [norm(c) for c in ast.walk(nm.node) if isinstance(c, ast.Call) and norm(c.func) == "self.integrate"]
-    ctx.ob(R, nm.qname, "normalize integrates both images with the same geometry and weights by reference/original",
-           sorted(calls) == sorted([f"self.integrate({nm.params[1]})", f"self.integrate({nm.params[2]})"])
-           and any(norm(n.value) == "np.divide(integral_ref, integral)" or norm(n.value) == "integral_ref / integral" for n in ast.walk(nm.node) if isinstance(n, ast.Assign)),
-           str(calls), nm.node)
+    am = AM(nm)
+    a, b = nm.params[1], nm.params[2]
+    ok = (am.has(nm.node, f"integral_ref = self.integrate({b})") is not None and am.has(nm.node, f"integral = self.integrate({a})") is not None
+          and (am.has(nm.node, "ratio = np.divide(integral_ref, integral)") is not None or am.has(nm.node, "ratio = integral_ref / integral") is not None)
+          and am.has(nm.node, f"rescaled_img = darsia.weight({a}, ratio)") is not None)
+    ctx.ob(R, nm.qname, "normalize integrates both images with the same geometry and weights the image by reference/original", ok, str(am.show()), nm.node)
 
 
 def run(ctx):
